@@ -5,6 +5,7 @@ import PsVerif.Driver.ScriptD
 import PsVerif.Driver.Registry
 import PsVerif.Driver.PolicyD
 import PsVerif.Driver.SyncD
+import PsVerif.Driver.RecordD
 /-
 psdriver: one request per line on stdin, one reply per line on stdout.
 The replies are computed by the SAME definitions the theorems in PsVerif/Props are about.
@@ -20,6 +21,9 @@ structure DState where
 
 def step (st : DState) (ws : List String) : DState × String :=
   match handlePure ws with
+  | some r => (st, r)
+  | none =>
+  match handleRecord ws with
   | some r => (st, r)
   | none =>
   match handleScript ws with
